@@ -159,6 +159,7 @@ def one_case(ctx, idx):
         stop = threading.Event()
         sent_total = {}
         drained = {}
+        streamer_done = {}
 
         def streamer(i, ch):
             pos = 0
@@ -171,6 +172,7 @@ def one_case(ctx, idx):
                 sent_total[i] = pos
                 time.sleep(0.002)
             sent_total[i] = pos
+            streamer_done[i] = True
             return pos
 
         def drainer(i, ch):
@@ -184,9 +186,12 @@ def one_case(ctx, idx):
                         break
                     buf += d
                     idle = 0
+                    if stop.is_set() and streamer_done.get(i) and len(buf) >= sent_total[i]:
+                        break
                 except Exception:
                     idle += 1
-                    if stop.is_set() and (len(buf) >= sent_total.get(i, 1 << 60) or idle > 60):
+                    # (only once the streamer has returned is sent_total final)
+                    if stop.is_set() and streamer_done.get(i) and (len(buf) >= sent_total[i] or idle > 60):
                         break
             drained[i] = bytes(buf)
             return len(buf)
